@@ -128,6 +128,7 @@ class World:
         self.idle_checks: List[Callable[[], None]] = []
         self.in_user = 0                    # depth of harness user code currently executing inside the pool
         self.exec_embedded: Callable[[dict, dict], None] = lambda op, ctx: None
+        self.flush_inline: Any = None
         self.name_re: Dict[str, PoolM] = {}
         self.observing = False
         self.probing = False
@@ -323,7 +324,7 @@ class World:
             return world.body(rec, wspec)
 
         w.__name__ = fname
-        w.__qualname__ = fname
+        w.__qualname__ = ("Outer.<locals>." + fname) if wspec.get("nested_qualname") else fname
         inspect.markcoroutinefunction(w)
         if wspec.get("partial"):
             import functools
@@ -376,6 +377,14 @@ class World:
                     elif kind == "yield":
                         for _ in range(step[1]):
                             await asyncio.sleep(0)
+                    elif kind == "aflush":
+                        # the worker itself awaits flush(): legal (a running task is never among what flush gathers)
+                        self.label("worker-awaits-flush")
+                        tm.in_aflush = True
+                        try:
+                            await self.flush_inline({"op": "flush", "pool": pm.idx, "re": True})
+                        finally:
+                            tm.in_aflush = False
                     elif kind == "op":
                         self.in_user += 1
                         try:
@@ -386,6 +395,14 @@ class World:
                     tm.cancels_seen += 1
                     tm.pending = False
                     tm.events.append(f"cancel@{sp}")
+                    if kind == "aflush":
+                        # cancelling somebody who awaits flush() cancels what flush was awaiting (asyncio.gather): like `abandon`
+                        self.label("worker-cancelled-inside-flush")
+                        pm.fault_seen = True
+                        for o in pm.tasks.values():
+                            if o is not tm and not o.finished() and not o.forgotten and (o.in_cb or o.body_done or not o.started):
+                                o.stray_ok = True
+                                o.disturbed = True
                     self.ev(f"wcancel {pm.name}#{tid} at step {sp}")
                     self.in_user += 1
                     try:
